@@ -1,1 +1,325 @@
 import XmpProofs.LoadPost
+/-!
+# C03 — A successfully loaded module is structurally well-formed
+
+Model: `XmpModel/LoadPost.lean`.  `finish scan raw` is what `load_module`
+(src/load.c) does after the format loader returned success: sanity gate,
+`libxmp_adjust_string`, `libxmp_load_epilogue`, `libxmp_prepare_scan`,
+`libxmp_scan_sequences`.  `raw : Module` is ARBITRARY (whatever a loader left
+behind: NULL entries, out-of-range numbers), `scan : Nat → ScanRes` is an
+ARBITRARY behaviour of `scan_module` (call `k` marks any orders and returns any
+time).  `WF` is the statement of C03 clause by clause (a `Bool`, evaluated by
+the driver on dumps of really loaded modules); `WFCommon` is the part the
+common path is responsible for.
+
+Full statement (goal): `load returns 0 → WF m`.  Proved here: `WFCommon m` for
+every raw module and every scan behaviour, the sequence clauses at full
+strength, names, and the lower bounds under the loaders' contract
+(`C03_nonneg`).  NOT provable from the common path (`…_partial` in the sense of
+CONVENTIONS): the clauses `rows`, `subinstruments`, `samples` of `WF` depend on
+each format loader and on `libxmp_load_sample` (C20); they are evaluated on real
+loads by the check (`tools/checks/c03.py`), `C03_helpers_*` prove them for the
+allocation helpers, and `allocSites_known` pins the loaders that bypass them.
+-/
+namespace Xmp.LoadPost
+open Xmp.Gen.Limits
+
+/-- **C03_finish_wf**: whenever the common post-load path succeeds, the module
+satisfies every clause of `WFCommon` — for arbitrary loader output and arbitrary
+`scan_module` behaviour. -/
+theorem C03_finish_wf (scan : Nat → ScanRes) (raw m : Module) (h : finish scan raw = .ok m) :
+    WFCommon m = true := by
+  obtain ⟨hg, p, hp, hs⟩ := finish_ok h
+  obtain ⟨_, g2, g3, _, g5⟩ := gate_spec hg
+  obtain ⟨_, _, hcase⟩ := prepareScan_ok hp
+  obtain ⟨st, hst, hm⟩ := scanSequences_ok hs
+  have l1 := @clampC_ge raw.len 0 xmpMaxModLength (by omega)
+  have l2 := @clampC_le raw.len 0 xmpMaxModLength (by omega)
+  have hplen : p.len = clampC raw.len 0 xmpMaxModLength ∨ p.len = 0 := by
+    rcases hcase with hc | ⟨_, _, hc⟩ <;> subst hc
+    · right; rfl
+    · left; rfl
+  have hlen : p.len.toNat ≤ xmpMaxModLength := by
+    rcases hplen with h' | h' <;> rw [h'] <;> omega
+  obtain ⟨s1, s2, s3, s4, s5, s6, s7, s8, s9⟩ := scanCore_spec scan _ hlen st hst
+  have hseq := sequences_of (m := m) (st := st) (len := p.len.toNat) (by subst hm; rfl) hlen
+    (by subst hm; rfl) (by subst hm; rfl) (by subst hm; rfl) s1 s2 s3 s4 s5 s6 s7 s8 s9
+  have hcounts : countsOK m = true := by
+    apply countsOK_of (a := adjustNames raw)
+    · subst hm; rcases hcase with hc | ⟨_, _, hc⟩ <;> subst hc <;> rfl
+    · subst hm; rcases hcase with hc | ⟨_, _, hc⟩ <;> subst hc
+      · right; rfl
+      · left; rfl
+    · subst hm; rcases hcase with hc | ⟨_, _, hc⟩ <;> subst hc <;> rfl
+    · subst hm; rcases hcase with hc | ⟨_, _, hc⟩ <;> subst hc <;> rfl
+    · subst hm; rcases hcase with hc | ⟨_, _, hc⟩ <;> subst hc <;> rfl
+  have hpats : patternsOK m = true := by
+    apply patterns_of (raw := raw)
+    · subst hm; rcases hcase with hc | ⟨_, _, hc⟩ <;> subst hc <;> rfl
+    · subst hm; rcases hcase with hc | ⟨_, _, hc⟩ <;> subst hc <;> rfl
+    · subst hm; rcases hcase with hc | ⟨_, _, hc⟩ <;> subst hc <;> rfl
+    · subst hm; rcases hcase with hc | ⟨_, _, hc⟩ <;> subst hc <;> rfl
+    · intro i q hq
+      subst hm; rcases hcase with hc | ⟨_, _, hc⟩ <;> subst hc
+      · exact hq
+      · exact pattern?_prepareXxp (epilogue (adjustNames raw)) i q hq _ rfl
+    · exact g5
+  have hrst : rstUpperOK m = true := by
+    apply rstUpper_of (a := adjustNames raw)
+    · subst hm; rcases hcase with hc | ⟨_, _, hc⟩ <;> subst hc
+      · right; rfl
+      · left; rfl
+    · subst hm; rcases hcase with hc | ⟨_, _, hc⟩ <;> subst hc <;> rfl
+  have hspd : spdOK m = true := by
+    apply spdOK_of (a := adjustNames raw)
+    subst hm; rcases hcase with hc | ⟨_, _, hc⟩ <;> subst hc <;> rfl
+  have hbpm : bpmOK m = true := by
+    apply bpmOK_of (a := adjustNames raw)
+    subst hm; rcases hcase with hc | ⟨_, _, hc⟩ <;> subst hc <;> rfl
+  have hchan : channelsOK m = true := by
+    apply channels_of (raw := raw) _ _ g3
+    · subst hm; rcases hcase with hc | ⟨_, _, hc⟩ <;> subst hc <;> rfl
+    · subst hm; rcases hcase with hc | ⟨_, _, hc⟩ <;> subst hc <;> rfl
+  have henv : envelopesUpperOK m = true := by
+    apply envelopesUpper_of (a := adjustNames raw)
+    · subst hm; rcases hcase with hc | ⟨_, _, hc⟩ <;> subst hc <;> rfl
+    · subst hm; rcases hcase with hc | ⟨_, _, hc⟩ <;> subst hc <;> rfl
+    · subst hm; rcases hcase with hc | ⟨_, _, hc⟩ <;> subst hc <;> rfl
+  have hsus : sustainOK m = true := by
+    apply sustain_of (a := adjustNames raw)
+    · subst hm; rcases hcase with hc | ⟨_, _, hc⟩ <;> subst hc <;> rfl
+    · subst hm; rcases hcase with hc | ⟨_, _, hc⟩ <;> subst hc <;> rfl
+    · subst hm; rcases hcase with hc | ⟨_, _, hc⟩ <;> subst hc <;> rfl
+  have hord : ordersOK m = true := by
+    apply orders_of (e := epilogue (adjustNames raw))
+    subst hm; rcases hcase with hc | ⟨hf, _, hc⟩ <;> subst hc
+    · left; rfl
+    · right; exact ⟨rfl, hf, rfl, rfl⟩
+  simp only [WFCommon, Bool.and_eq_true]
+  exact ⟨⟨⟨⟨⟨⟨⟨⟨⟨⟨hcounts, hpats⟩, hrst⟩, hspd⟩, hbpm⟩, hchan⟩, henv⟩, hsus⟩, hord⟩, hseq.1⟩, hseq.2⟩
+
+
+/-- **C03_sequences**: after `libxmp_scan_sequences`, unless the order list is
+empty there are between 1 and MAX_SEQUENCES sequences, their entry points are
+pairwise distinct and inside the order list, durations are non-negative, and
+every order belongs to no sequence (0xff) or to an existing one — the clause
+`xmp_set_position` / `xmp_play_frame` rely on when they index `p->scan[]`
+(this is the F1 repair in src/scan.c; it did not hold before). -/
+theorem C03_sequences (scan : Nat → ScanRes) (raw m : Module) (h : finish scan raw = .ok m) (hl : 0 < m.len) :
+    1 ≤ m.numSeq ∧ m.numSeq ≤ maxSequences ∧ m.seqData.length = m.numSeq
+    ∧ (∀ p ∈ m.seqData, (p.1 : Int) < m.len ∧ 0 ≤ p.2)
+    ∧ (m.seqData.map (·.1)).Nodup
+    ∧ ∀ ord : Nat, (ord : Int) < m.len → ∃ c, m.seqCtl[ord]? = some c ∧ (c = 0xff ∨ c < m.numSeq) := by
+  have hw := C03_finish_wf scan raw m h
+  simp only [WFCommon, Bool.and_eq_true] at hw
+  obtain ⟨⟨_, hs⟩, hc⟩ := hw
+  simp only [sequencesOK, Bool.or_eq_true, Bool.and_eq_true, decide_eq_true_eq, List.all_eq_true] at hs
+  rcases hs with hs | ⟨⟨⟨⟨h1, h2⟩, h3⟩, h4⟩, h5⟩
+  · omega
+  · refine ⟨h1, h2, h3, h4, h5, ?_⟩
+    intro ord ho
+    have := allBelow_iff.mp hc ord ho
+    cases hq : m.seqCtl[ord]? with
+    | none => simp [hq] at this
+    | some c =>
+      refine ⟨c, rfl, ?_⟩
+      simpa [hq] using this
+
+/-- The `while (1)` loop of `libxmp_scan_sequences` is modelled with `len + 1`
+units of fuel; it always leaves through one of the C's two `break` conditions
+(no free order left, or MAX_SEQUENCES reached), never because the fuel ran out. -/
+theorem C03_scan_loop_fuel (scan : Nat → ScanRes) (len : Nat) (hlen : len ≤ xmpMaxModLength) (st : SeqState)
+    (inv : SeqInv len st) :
+    firstFree len (seqLoop scan len (len + 1) st).ctl = none ∨ ¬ (seqLoop scan len (len + 1) st).seq < maxSequences :=
+  seqLoop_exit scan len hlen (len + 1) st inv (by have := freeCount_le len st.ctl; omega)
+
+/-- **C03_finish_rc**: the path fails with `-XMP_ERROR_LOAD` whenever the gate
+rejects, and a result is only produced when the gate accepted and both tables
+exist. -/
+theorem C03_finish_rc (scan : Nat → ScanRes) (raw : Module) :
+    (gate raw = false → finish scan raw = .error .load)
+    ∧ (∀ m, finish scan raw = .ok m → gate raw = true ∧ raw.xxp.isSome = true ∧ raw.xxt.isSome = true)
+    ∧ Err.load.code = -4 ∧ Err.system.code = -6 := by
+  refine ⟨?_, ?_, by decide, by decide⟩
+  · intro hg; unfold finish; simp [hg]
+  · intro m h
+    obtain ⟨hg, p, hp, _⟩ := finish_ok h
+    obtain ⟨h1, h2, _⟩ := prepareScan_ok hp
+    exact ⟨hg, h1, h2⟩
+
+/-- **C03_names**: names that are NUL-terminated when the loader returns are
+NUL-terminated afterwards (`libxmp_adjust_string` never grows a string), and the
+arrays keep their size. -/
+theorem C03_names (scan : Nat → ScanRes) (raw m : Module) (h : finish scan raw = .ok m)
+    (hn : hasNul raw.name = true) (ht : hasNul raw.typ = true)
+    (hi : ∀ x ∈ raw.xxi, hasNul x.name = true) (hs : ∀ x ∈ raw.xxs, hasNul x.name = true)
+    (hil : raw.ins.toNat ≤ raw.xxi.length) (hsl : raw.smp.toNat ≤ raw.xxs.length) :
+    namesOK m = true ∧ m.name.length = raw.name.length := by
+  obtain ⟨hg, p, hp, hsq⟩ := finish_ok h
+  obtain ⟨_, _, hcase⟩ := prepareScan_ok hp
+  obtain ⟨st, _, hm⟩ := scanSequences_ok hsq
+  have hname : m.name = adjustString raw.name := by
+    subst hm; rcases hcase with hc | ⟨_, _, hc⟩ <;> subst hc <;> rfl
+  have htyp : m.typ = raw.typ := by
+    subst hm; rcases hcase with hc | ⟨_, _, hc⟩ <;> subst hc <;> rfl
+  have hins : m.ins = clampC raw.ins 0 epiInsMax := by
+    subst hm; rcases hcase with hc | ⟨_, _, hc⟩ <;> subst hc <;> rfl
+  have hsmp : m.smp = clampC raw.smp 0 maxSamples := by
+    subst hm; rcases hcase with hc | ⟨_, _, hc⟩ <;> subst hc <;> rfl
+  have hxxi : m.xxi = (raw.xxi.mapIdx fun i x =>
+      if (i : Int) < raw.ins then { x with name := adjustString x.name } else x).mapIdx fun i x =>
+      if (i : Int) < clampC raw.ins 0 epiInsMax then epilogueIns raw.volbase raw.insvol x else x := by
+    subst hm; rcases hcase with hc | ⟨_, _, hc⟩ <;> subst hc <;> rfl
+  have hxxs : ∀ i : Nat, (m.xxs[i]?).map (·.name) = (raw.xxs[i]?).map fun x =>
+      if (i : Int) < raw.smp then adjustString x.name else x.name := by
+    intro i
+    have : m.xxs = (adjustNames raw).xxs.mapIdx fun i s =>
+        if (i : Int) < clampC raw.smp 0 maxSamples then
+          (match (adjustNames raw).xtra[i]? with | some x => (epilogueSmp s x).1 | none => s) else s := by
+      subst hm; rcases hcase with hc | ⟨_, _, hc⟩ <;> subst hc <;> rfl
+    rw [this]
+    simp only [adjustNames, List.getElem?_mapIdx, Option.map_map]
+    cases raw.xxs[i]? with
+    | none => rfl
+    | some x =>
+      simp only [Option.map_some, Function.comp]
+      rw [smpStep_name]
+      split <;> rfl
+  refine ⟨?_, by rw [hname, adjustString_length]⟩
+  simp only [namesOK, Bool.and_eq_true]
+  refine ⟨⟨⟨by rw [hname]; exact adjustString_hasNul _ hn, by rw [htyp]; exact ht⟩, ?_⟩, ?_⟩
+  · rw [allBelow_iff]
+    intro i hlt
+    have hi1 : (i : Int) < raw.ins := clampC_lt_imp (hins ▸ hlt)
+    have hi2 : i < raw.xxi.length := by omega
+    rw [hxxi]
+    simp only [List.getElem?_mapIdx, List.getElem?_eq_getElem hi2, Option.map_some, hi1, if_true]
+    have hmem := hi _ (List.getElem_mem hi2)
+    split
+    · exact adjustString_hasNul _ hmem
+    · exact adjustString_hasNul _ hmem
+  · rw [allBelow_iff]
+    intro i hlt
+    have hi1 : (i : Int) < raw.smp := clampC_lt_imp (hsmp ▸ hlt)
+    have hi2 : i < raw.xxs.length := by omega
+    have := hxxs i
+    rw [List.getElem?_eq_getElem hi2] at this
+    cases hq : m.xxs[i]? with
+    | none => simp [hq] at this
+    | some sx =>
+      simp only [hq, Option.map_some, hi1, if_true, Option.some.injEq] at this
+      simp only
+      rw [this]
+      exact adjustString_hasNul _ (hs _ (List.getElem_mem hi2))
+
+/-- non-negative loop / sustain points -/
+def envNonneg (e : Envelope) : Prop := 0 ≤ e.lps ∧ 0 ≤ e.lpe ∧ 0 ≤ e.sus ∧ 0 ≤ e.sue
+
+/-- **C03_nonneg**: the common path never lowers a restart position or an
+envelope point below what the loader stored, so with the loaders' contract
+(these fields are read from unsigned file fields) the full clauses `rst` and
+`envelopes` of `WF` hold too.  (The gate does not test them: a negative restart
+position would pass, see the report.) -/
+theorem C03_nonneg (scan : Nat → ScanRes) (raw m : Module) (h : finish scan raw = .ok m)
+    (hr : 0 ≤ raw.rst) (he : ∀ x ∈ raw.xxi, envNonneg x.aei ∧ envNonneg x.pei ∧ envNonneg x.fei)
+    (hil : raw.ins.toNat ≤ raw.xxi.length) :
+    rstOK m = true ∧ envelopesOK m = true := by
+  have hw := C03_finish_wf scan raw m h
+  obtain ⟨hg, p, hp, hsq⟩ := finish_ok h
+  obtain ⟨_, _, hcase⟩ := prepareScan_ok hp
+  obtain ⟨st, _, hm⟩ := scanSequences_ok hsq
+  have hrst : m.rst = if raw.rst ≥ clampC raw.len 0 xmpMaxModLength then 0 else raw.rst := by
+    subst hm; rcases hcase with hc | ⟨_, _, hc⟩ <;> subst hc <;> rfl
+  have hins : m.ins = clampC raw.ins 0 epiInsMax := by
+    subst hm; rcases hcase with hc | ⟨_, _, hc⟩ <;> subst hc <;> rfl
+  have hxxi : m.xxi = (raw.xxi.mapIdx fun i x =>
+      if (i : Int) < raw.ins then { x with name := adjustString x.name } else x).mapIdx fun i x =>
+      if (i : Int) < clampC raw.ins 0 epiInsMax then epilogueIns raw.volbase raw.insvol x else x := by
+    subst hm; rcases hcase with hc | ⟨_, _, hc⟩ <;> subst hc <;> rfl
+  constructor
+  · simp only [WFCommon, Bool.and_eq_true] at hw
+    simp only [rstOK, Bool.and_eq_true, decide_eq_true_eq]
+    refine ⟨?_, hw.1.1.1.1.1.1.1.1.2⟩
+    rw [hrst]; split <;> omega
+  · unfold envelopesOK
+    rw [allBelow_iff]
+    intro i hlt
+    have hi1 : (i : Int) < raw.ins := clampC_lt_imp (hins ▸ hlt)
+    have hi2 : i < raw.xxi.length := by omega
+    have hlt' : (i : Int) < clampC raw.ins 0 epiInsMax := hins ▸ hlt
+    rw [hxxi]
+    simp only [List.getElem?_mapIdx, List.getElem?_eq_getElem hi2, Option.map_some, hi1, hlt', if_true]
+    obtain ⟨h1, h2, h3⟩ := he _ (List.getElem_mem hi2)
+    simp only [Bool.and_eq_true]
+    exact ⟨⟨checkEnvelope_envOK _ h1, checkEnvelope_envOK _ h2⟩, checkEnvelope_envOK _ h3⟩
+
+/-! ## Allocation helpers of loaders/common.c -/
+
+/-- `libxmp_alloc_track`: a track allocated by the helper has at least one row
+and lands in a free slot inside the table. -/
+theorem C03_helpers_track (trk : Int) (slotFree : Bool) (num rows : Int) (t : Track)
+    (h : allocTrack trk slotFree num rows = some t) :
+    1 ≤ t.rows ∧ t.rows = rows ∧ 0 ≤ num ∧ num < trk ∧ slotFree = true := by
+  unfold allocTrack at h
+  split at h
+  · cases h
+  · rename_i hc
+    injection h with h
+    subst h
+    simp only [not_or, Int.not_lt, Int.not_le, Bool.not_eq_true, Bool.not_eq_false'] at hc
+    refine ⟨by show 1 ≤ rows; omega, rfl, by omega, by omega, ?_⟩
+    cases slotFree <;> simp_all
+
+/-- `libxmp_alloc_pattern_tracks` (`limit` = 256) and `…_long` (`limit` =
+32768): the pattern has `1 ≤ rows ≤ limit`, one index per channel, and every
+track it references was allocated with the same, positive number of rows inside
+the track table. -/
+theorem C03_helpers_pattern (limit pat trk chn : Int) (slotFree : Bool) (free : Int → Bool) (num rows : Int)
+    (p : Pattern) (ts : List Track)
+    (h : allocPatternTracks limit pat trk chn slotFree free num rows = some (p, ts)) :
+    1 ≤ p.rows ∧ p.rows ≤ limit ∧ p.index.length = chn.toNat ∧ ts.length = chn.toNat
+    ∧ (∀ t ∈ ts, t.rows = p.rows ∧ 1 ≤ t.rows)
+    ∧ (∀ t ∈ p.index, 0 ≤ t ∧ t < trk) := by
+  unfold allocPatternTracks at h
+  split at h
+  · cases h
+  · rename_i hr
+    split at h
+    · cases h
+    · simp only at h
+      split at h
+      · rename_i hall
+        injection h with h
+        injection h with hp hts
+        subst hp
+        rw [List.all_eq_true] at hall
+        have hsome : ∀ i, i < chn.toNat →
+            ∃ t, allocTrack trk (free (num * chn + (i : Int))) (num * chn + (i : Int)) rows = some t := by
+          intro i hi
+          have := hall (allocTrack trk (free (num * chn + (i : Int))) (num * chn + (i : Int)) rows)
+            (List.mem_map.mpr ⟨i, List.mem_range.mpr hi, rfl⟩)
+          cases hq : allocTrack trk (free (num * chn + (i : Int))) (num * chn + (i : Int)) rows with
+          | none => simp [hq] at this
+          | some t => exact ⟨t, rfl⟩
+        refine ⟨by show 1 ≤ rows; omega, by show rows ≤ limit; omega, by simp, ?_, ?_, ?_⟩
+        · subst hts
+          rw [List.length_filterMap_eq_length_iff.mpr]
+          · simp
+          · intro o ho
+            exact hall o ho
+        · intro t ht
+          subst hts
+          simp only [List.mem_filterMap, List.mem_map, List.mem_range, id] at ht
+          obtain ⟨o, ⟨i, _, hi⟩, ho⟩ := ht
+          subst ho
+          have := C03_helpers_track _ _ _ _ t hi.symm
+          exact ⟨this.2.1, this.1⟩
+        · intro t ht
+          simp only [List.mem_map, List.mem_range] at ht
+          obtain ⟨i, hi, rfl⟩ := ht
+          obtain ⟨t', ht'⟩ := hsome i hi
+          have := C03_helpers_track _ _ _ _ t' ht'
+          exact ⟨this.2.2.1, this.2.2.2.1⟩
+      · cases h
+
+end Xmp.LoadPost
